@@ -46,6 +46,19 @@ def family_call(tonic, body, name=None, pat=None):
                     link = body.origin(pt['args'][0])
         for bb, t in hits:
             out.append((c, bb, t, link))
+    # functions written after the pinned tree that `body` hands to a combinator by name (`.map_or_else(dflt, decode_header)`)
+    for m in family(tonic, body):
+        if m.kind != 'fn' or m is body:
+            continue
+        fam_m = [m] + [c for c in tonic.bodies if c.kind == 'closure' and c.path.startswith(m.path + '::')]
+        link = None
+        for pb, pt in body.calls():
+            if any('k' in a and re.sub(r'::<[^:]*>$', '', a['k'].get('fn') or '') == m.path for a in pt['args']) and pt['args']:
+                link = body.origin(pt['args'][0])
+        for c in fam_m:
+            for bb, t in c.calls(pat=pat, name=name):
+                if not any(x[0] is c and x[1] == bb for x in out):
+                    out.append((c, bb, t, link))
     return out
 
 
@@ -98,6 +111,21 @@ def run(R):
             subj = [k for k in d if k.startswith('discr(')]
             val = strip_refs(mirlib.simplify(b.ret_on_path(path)))
             bb = path[-1]
+            tl = table_lookup(tonic, val[2][0]) if is_call(val, name='from_static') else None
+            if tl is not None and tl['kind'] == 'index':
+                # the table as data: from_static(TABLE[self as usize](.0)) — row n is entry n; if entries carry the code too it must be code n
+                probe = strip_refs(tl['probe'])
+                while probe and probe[0] == 'cast' and len(probe) > 2:
+                    probe = strip_refs(probe[2])
+                R.check(probe[0] == 'discr' and arg_root(probe[1]) == 1, 'C04.R1', 'to_header_value:indexed-by-code', site(b, bb), 'the table is indexed by the code\'s own discriminant: %s' % show(tl['probe'])[:60])
+                for n, e in enumerate(tl['entries']):
+                    s_ = const_str(tl['value'](e))
+                    seen[n] = s_
+                    R.eq(s_, str(n), 'C04.R1', 'to_header_value:%s' % bynum.get(n, n), site(b, bb), 'header string for discriminant %d (table entry %d)' % (n, n))
+                    if e and e[0] == 'agg' and e[1].get('kind') == 'tuple':
+                        cvs = [x for x in e[2] if strip_refs(x)[0] == 'agg' and (strip_refs(x)[1].get('adt') or '').endswith('status::Code')]
+                        R.check(len(cvs) == 1 and strip_refs(cvs[0])[1].get('variant') == bynum.get(n), 'C04.R1', 'to_header_value:entry-code:%s' % bynum.get(n, n), site(b, bb), 'table entry %d belongs to Code::%s' % (n, bynum.get(n)))
+                continue
             if len(subj) != 1 or d[subj[0]][0] != '==' or not is_call(val, name='from_static'):
                 R.bad('C04.R1', 'to_header_value:shape', site(b, bb), 'unrecognised row %r -> %s' % (cons, show(val)[:80]), kind='UNRECOGNISED')
                 continue
@@ -118,6 +146,31 @@ def run(R):
         R.check(len(pe_w) == 1 and pe_w[0][0] == 'variant' and pe_w[0][2] == 'Unknown', 'C04.R1', 'parse_err=Unknown', site(pe),
                 'Code::parse_err returns %r' % (pe_w,))
         found = {}
+        # the table as data: TABLE.iter().find(|(text, _)| text.as_bytes() == bytes).map_or_else(parse_err, |(_, code)| *code), or
+        # TABLE.iter().position(|text| ..).map(|i| Code::from_i32(i)) over the strings "0".."16"
+        tls = []
+        for cons_, path_ in mirlib.path_rows(b):
+            v_ = strip_refs(mirlib.simplify(b.ret_on_path(path_)))
+            t0_ = table_lookup(tonic, v_)
+            if t0_ is None:
+                for c_ in find_terms(v_, lambda y: is_call(y, name='position')):
+                    t0_ = table_lookup(tonic, c_)
+            if t0_ is not None and t0_['kind'] in ('find', 'position'):
+                tls.append((t0_, v_, path_))
+        if tls:
+            t0_, v_, path_ = tls[0]
+            R.check(arg_root(strip_refs(resolve_env(tonic, b, t0_['probe']))) == 1 or mentions_arg(t0_['probe'], 1) or term_contains(t0_['probe'], lambda y: y and y[0] == 'field' and y[1] in (('env',), ('deref', ('env',)))), 'C04.R1', 'from_bytes:probe', site(b), 'the table is searched for the header bytes')
+            for n_, e_ in enumerate(t0_['entries']):
+                k_ = const_str(t0_['key'](e_)) if const_str(t0_['key'](e_)) is not None else const_val(t0_['key'](e_))
+                k_ = k_.decode('latin1') if isinstance(k_, bytes) else k_
+                if t0_['kind'] == 'find' and t0_['value'] is not None:
+                    cv_ = strip_refs(t0_['value'](e_))
+                    found[k_] = cv_[1].get('variant') if cv_ and cv_[0] == 'agg' else None
+                elif t0_['kind'] == 'position' and term_contains(v_, lambda y: is_call(y, name='from_i32')):
+                    found[k_] = bynum.get(n_)   # position n is handed to Code::from_i32 (its own table is checked below)
+            dflt_ok = (t0_['default'] is not None and has_fn(t0_['default'], 'parse_err')) or any(is_call(strip_refs(mirlib.simplify(b.ret_on_path(p2_))), name='parse_err') for c2_, p2_ in mirlib.path_rows(b))
+            R.check(dflt_ok, 'C04.R1', 'from_bytes:default@table', site(b), 'a value not in the table yields Code::parse_err() (Unknown)')
+            rows = []
         for cons, bb in rows:
             d = cons_dict(cons)
             ln = [v for k, v in d.items() if 'len(' in k or k.startswith('PtrMetadata(')]
